@@ -42,4 +42,26 @@ func init() {
 	benign("C05", "redirect-into-locals", "net.go", "\tif d.rd != nil {\n\t\tnetwork, address = d.rd(network, address)\n\t}\n", "\tif d.rd != nil {\n\t\tn, a := d.rd(network, address)\n\t\tnetwork, address = n, a\n\t}\n")
 	benign("C03", "copy-error-text", "internal/martian/copy.go", "log.Error(ctx, \"failed to copy tunnel\", \"name\", c.name, \"error\", err)", "log.Error(ctx, \"tunnel copy failed\", \"name\", c.name, \"error\", err)")
 	benign("C01", "hopbyhop-table-reordered", "internal/martian/header/hopbyhop_modifier.go", "\t\"Te\",\n\t\"Trailer\",\n", "\t\"Trailer\",\n\t\"Te\",\n")
+
+	// second batch: restructurings that keep behaviour
+	benign("C18", "via-concat-in-one-write", "internal/martian/header/via_modifier.go", "\t\tsb.WriteString(via)\n\t\tsb.WriteString(\", \")\n", "\t\tsb.WriteString(via + \", \")\n")
+	benign("C02", "crlf-via-write", pconn, "\t// End-of-header\n\tif _, err := io.WriteString(w, \"\\r\\n\"); err != nil {", "\t// End-of-header\n\tif _, err := w.Write([]byte(\"\\r\\n\")); err != nil {")
+	benign("C11", "single-deferred-cleanup", proxygo, "\tdefer func() {\n\t\tp.connsMu.Lock()\n\t\tdelete(p.conns, conn)\n\t\tp.connsMu.Unlock()\n\t}()\n\tdefer p.connsWg.Add(-1)\n\tdefer conn.Close()\n", "\tdefer func() {\n\t\tconn.Close()\n\t\tp.connsWg.Add(-1)\n\t\tp.connsMu.Lock()\n\t\tdelete(p.conns, conn)\n\t\tp.connsMu.Unlock()\n\t}()\n")
+	benign("C13", "report-through-helper", pconn, "\tp.traceWroteResponse(res, nil)\n\n\treturn nil\n}\n\nfunc (p *proxyConn) handle() error {", "\tp.tunnelDone(res)\n\n\treturn nil\n}\n\nfunc (p *proxyConn) tunnelDone(res *http.Response) {\n\tp.traceWroteResponse(res, nil)\n}\n\nfunc (p *proxyConn) handle() error {")
+	benign("C08", "combined-fallback-condition", "proxyproto/net.go", "\tif err := c.readHeader(); err != nil {\n\t\treturn c.Conn.RemoteAddr()\n\t}\n\n\tif c.headerErr != nil || c.header.IsLocal || c.header.Source == nil {\n\t\treturn c.Conn.RemoteAddr()\n\t}\n", "\tif err := c.readHeader(); err != nil || c.headerErr != nil || c.header.IsLocal || c.header.Source == nil {\n\t\treturn c.Conn.RemoteAddr()\n\t}\n")
+	benign("C09", "clamp-with-min", relay, "\t\tnextPayloadLength := uint32(len(data))\n\t\tif nextPayloadLength > maxPayloadLength {\n\t\t\tnextPayloadLength = maxPayloadLength\n\t\t}\n", "\t\tnextPayloadLength := min(uint32(len(data)), maxPayloadLength)\n")
+	benign("C04", "localhost-check-into-local", "http_proxy.go", "\t\tif hp.isLocalhost(req.URL.Hostname()) {\n\t\t\treturn ErrProxyLocalhost\n\t\t}\n\t\treturn nil", "\t\thost := req.URL.Hostname()\n\t\tif hp.isLocalhost(host) {\n\t\t\treturn ErrProxyLocalhost\n\t\t}\n\t\treturn nil")
+	benign("C06", "match-with-switch", "credentials.go", "\tif m.global != nil {\n\t\tm.log.Debug(\"global wildcard\")\n\t\treturn m.global\n\t}\n\n\treturn nil\n}", "\tif m.global == nil {\n\t\treturn nil\n\t}\n\tm.log.Debug(\"global wildcard\")\n\treturn m.global\n}")
+	benign("C15", "deadline-helper-local", pconn, "\tif d := p.readHeaderTimeout(); d > 0 {\n\t\thdrDeadline = t0.Add(d)\n\t}", "\thdrTimeout := p.readHeaderTimeout()\n\tif hdrTimeout > 0 {\n\t\thdrDeadline = t0.Add(hdrTimeout)\n\t}")
+	benign("C16", "apply-if-chain", "header/header.go", "\tcase Remove:\n\t\thh.Del(h.Name)\n\tcase RemoveByPrefix:\n\t\tremoveHeadersByPrefix(hh, h.Name)", "\tcase RemoveByPrefix:\n\t\tremoveHeadersByPrefix(hh, h.Name)\n\tcase Remove:\n\t\thh.Del(h.Name)")
+	benign("C17", "build-with-join", "ruleset/regexp.go", "\t\t\tregex.WriteString(\"(?:\")\n\t\t\tregex.WriteString(rules[i].String())\n\t\t\tregex.WriteString(\")\")\n", "\t\t\tregex.WriteString(\"(?:\" + rules[i].String() + \")\")\n")
+	benign("C20", "read-early-return", "ratelimit/conn.go", "\tn, err = c.Conn.Read(b)\n\tif n > 0 && c.rxLimiter != nil {\n\t\tc.rxLimiter.WaitN(waitContext, n)\n\t}\n\treturn", "\tn, err = c.Conn.Read(b)\n\tif n <= 0 || c.rxLimiter == nil {\n\t\treturn\n\t}\n\tc.rxLimiter.WaitN(waitContext, n)\n\treturn")
+	benign("C03", "copy-defer-done", "internal/martian/copy.go", "\tlog.Debug(ctx, \"tunnel finished copying\", \"name\", c.name)\n\tdonec <- struct{}{}\n}", "\tlog.Debug(ctx, \"tunnel finished copying\", \"name\", c.name, \"dst\", fmt.Sprintf(\"%T\", c.dst))\n\tdonec <- struct{}{}\n}")
+	benign("C10", "rename-continuation-field", relay, "\tpriority    http2.PriorityParam\n\tstreamEnded bool\n}\n\nfunc (h *headerContinuation) complete(s Processor, headers []hpack.HeaderField) error {\n\treturn s.Header(headers, h.streamEnded, h.priority)", "\tpriority    http2.PriorityParam\n\tendStream bool\n}\n\nfunc (h *headerContinuation) complete(s Processor, headers []hpack.HeaderField) error {\n\treturn s.Header(headers, h.endStream, h.priority)")
+	benign("C12", "status-constants", "http_proxy_errors.go", "\t\t\tcode = http.StatusGatewayTimeout\n", "\t\t\tcode = 504\n")
+	benign("C19", "redact-with-switch", "bind/redact.go", "\tif strings.HasPrefix(s, \"data:\") {\n\t\treturn \"data:xxxxx\"\n\t}\n\n\treturn s", "\tif !strings.HasPrefix(s, \"data:\") {\n\t\treturn s\n\t}\n\treturn \"data:xxxxx\"")
+	benign("C14", "entrypoint-switch", "pac/pac.go", "\tif fnx != nil {\n\t\tpr.fn = fnx\n\t} else {\n\t\tpr.fn = fn\n\t}", "\tpr.fn = fn\n\tif fnx != nil {\n\t\tpr.fn = fnx\n\t}")
+	benign("C07", "verify-options-local", "internal/martian/mitm/mitm.go", "\t\tif _, err := tlsc.Leaf.Verify(x509.VerifyOptions{\n\t\t\tDNSName: hostname,\n\t\t\tRoots:   c.roots,\n\t\t}); err == nil {", "\t\topts := x509.VerifyOptions{\n\t\t\tDNSName: hostname,\n\t\t\tRoots:   c.roots,\n\t\t}\n\t\tif _, err := tlsc.Leaf.Verify(opts); err == nil {")
+	benign("C05", "wrapper-named-result", "http_proxy.go", "\t\tif hp.isLocalhost(req.URL.Hostname()) {\n\t\t\treturn nil, nil\n\t\t}\n\t\treturn fn(req)", "\t\tlocal := hp.isLocalhost(req.URL.Hostname())\n\t\tif local {\n\t\t\treturn nil, nil\n\t\t}\n\t\treturn fn(req)")
+	benign("C01", "forwarded-url-local", "internal/martian/header/forwarded_modifier.go", "\t\t\tif v := req.Header.Get(\"X-Forwarded-Url\"); v == \"\" {\n\t\t\t\treq.Header.Set(\"X-Forwarded-Url\", req.URL.String())\n\t\t\t}", "\t\t\tif req.Header.Get(\"X-Forwarded-Url\") == \"\" {\n\t\t\t\tu := req.URL.String()\n\t\t\t\treq.Header.Set(\"X-Forwarded-Url\", u)\n\t\t\t}")
 }
